@@ -43,7 +43,20 @@ func runOp(c *Case) (obs map[string]any) {
 	}
 }
 
-func buildOptions(cfg *Cfg, mon imonitor.Monitor, sizes map[string]pg.Size) []autog.Option {
+// decoyOf: a second size map handed to an EARLIER WithNodeSize of the same call (the later option replaces the earlier one
+// entirely, so it must neither show in the result nor be written to); nil in most cases
+func decoyOf(cfg *Cfg, sizes map[string]pg.Size) map[string]pg.Size {
+	if sizes == nil || (len(sizes)+cfg.P4+cfg.P5+len(cfg.NS))%3 != 0 {
+		return nil
+	}
+	d := map[string]pg.Size{"\x00decoy": {W: 7, H: 9}}
+	for k, v := range sizes {
+		d[k] = pg.Size{W: v.W + 1, H: v.H + 2}
+	}
+	return d
+}
+
+func buildOptions(cfg *Cfg, mon imonitor.Monitor, sizes map[string]pg.Size, decoy ...map[string]pg.Size) []autog.Option {
 	var opts []autog.Option
 	// an algorithm that is the documented default is requested explicitly in some cases and left to the default in others
 	// (derived from the configuration, so that a case replays identically)
@@ -107,7 +120,13 @@ func buildOptions(cfg *Cfg, mon imonitor.Monitor, sizes map[string]pg.Size) []au
 	if cfg.Fixed != nil {
 		opts = append(opts, autog.WithNodeFixedSize(pf(cfg.Fixed[0]), pf(cfg.Fixed[1])))
 	}
+	decoyAt, realAt := -1, -1
 	if cfg.Sizes != nil {
+		if len(decoy) > 0 && decoy[0] != nil {
+			decoyAt = len(opts)
+			opts = append(opts, autog.WithNodeSize(decoy[0]))
+		}
+		realAt = len(opts)
 		opts = append(opts, autog.WithNodeSize(sizes))
 	}
 	if cfg.Virt {
@@ -123,9 +142,28 @@ func buildOptions(cfg *Cfg, mon imonitor.Monitor, sizes map[string]pg.Size) []au
 	// so that no property silently depends on one particular order
 	h := uint64(cfg.P1*7+cfg.P2*13+cfg.P4*31+cfg.P5*61+cfg.Thor*3) + uint64(len(cfg.NS))*17 + uint64(len(sizes))
 	r := &rng{s: h}
+	at := make([]int, len(opts)) // at[i] = original index of the option now at position i
+	for i := range at {
+		at[i] = i
+	}
 	for i := len(opts) - 1; i > 0; i-- {
 		j := r.intn(i + 1)
 		opts[i], opts[j] = opts[j], opts[i]
+		at[i], at[j] = at[j], at[i]
+	}
+	if decoyAt >= 0 { // the decoy map must come before the real one
+		di, ri := -1, -1
+		for i, a := range at {
+			if a == decoyAt {
+				di = i
+			}
+			if a == realAt {
+				ri = i
+			}
+		}
+		if di > ri {
+			opts[di], opts[ri] = opts[ri], opts[di]
+		}
 	}
 	return opts
 }
@@ -181,6 +219,7 @@ type layoutRun struct {
 	meta     [][]any // per component: [virt, layer] of every node of g.Nodes at stage 6
 	pivots   []any   // per component: [pivots, maxitr] of the phase-2 simplex loop, or nil
 	better   []any   // per component: a strictly shorter feasible layering found by search (NS layering), or nil
+	decoyMod bool    // a size map passed to an earlier, overridden WithNodeSize of the same call was written to
 }
 
 // oneLayout runs Layout once on private copies of the inputs
@@ -206,7 +245,12 @@ func oneLayout(c *Case, trace bool, withMon bool) (r layoutRun, src pg.EdgeSlice
 		sizesBefore = sizeMap(&cfg)
 		sizesAfter = sizeMap(&cfg)
 	}
-	opts := buildOptions(&cfg, mon, sizesAfter)
+	decoy := decoyOf(&cfg, sizesAfter)
+	decoyBefore := map[string]pg.Size{}
+	for k, v := range decoy {
+		decoyBefore[k] = v
+	}
+	opts := buildOptions(&cfg, mon, sizesAfter, decoy)
 	var lastPivots any
 	phase2.VerifPivotsFn = func(nodes, pivots, maxitr int) {
 		if lastPivots == nil { // the first call after phase 1 is the layerer; later ones belong to the positioner
@@ -254,6 +298,9 @@ func oneLayout(c *Case, trace bool, withMon bool) (r layoutRun, src pg.EdgeSlice
 		}
 	}()
 	r.out = autog.Layout(src, opts...)
+	if decoy != nil && !reflect.DeepEqual(decoy, decoyBefore) {
+		r.decoyMod = true
+	}
 	return
 }
 
@@ -287,7 +334,7 @@ func opLayout(c *Case) map[string]any {
 	obs["pivots"] = r.pivots
 	obs["better"] = r.better
 	// inputs untouched?
-	obs["inputmod"] = !reflect.DeepEqual([][]string(src), c.Edges) || !reflect.DeepEqual(szb, sza)
+	obs["inputmod"] = !reflect.DeepEqual([][]string(src), c.Edges) || !reflect.DeepEqual(szb, sza) || r.decoyMod
 	// a monitor must not change the result: same call with the monitor toggled
 	if _, ok := c.Arg["montoggle"]; ok {
 		r2, _, _, _ := oneLayout(c, false, !c.Cfg.Mon)
